@@ -5110,6 +5110,10 @@ EmitOp_MemBaseIndex_Rn5_Rm16:
     goto InvalidAddress;
   }
 
+  if (rm_rel->as<Mem>().base_id() > 31) {
+    goto InvalidPhysId;
+  }
+
   if (rm_rel->as<Mem>().index_id() > 30 && rm_rel->as<Mem>().index_id() != Gp::kIdZr) {
     goto InvalidPhysId;
   }
